@@ -54,6 +54,59 @@ type Ctl struct {
 	parked  map[string]chan struct{} // label -> release channel
 	where   map[string]string
 	txToken chan struct{} // serialises transactions
+	// spin guard: a labelled process that issues more than spinLimit statements without the harness
+	// resetting the counter is parked (it is busy-looping; under synctest it would never block)
+	spinLimit int
+	spinLabel string
+	spinN     int
+	spinCh    chan struct{}
+	spinning  bool
+}
+
+// SpinGuard arms the guard for one label (limit 0 disarms).
+func (c *Ctl) SpinGuard(label string, limit int) {
+	c.mu.Lock()
+	c.spinLabel, c.spinLimit, c.spinN = label, limit, 0
+	c.mu.Unlock()
+}
+
+// SpinReset restarts the count and releases a parked spinner; reports whether one was parked.
+func (c *Ctl) SpinReset() bool {
+	c.mu.Lock()
+	was := c.spinning
+	c.spinN = 0
+	c.spinning = false
+	ch := c.spinCh
+	c.spinCh = nil
+	c.mu.Unlock()
+	if ch != nil {
+		close(ch)
+	}
+	return was
+}
+func (c *Ctl) Spinning() bool { c.mu.Lock(); defer c.mu.Unlock(); return c.spinning }
+
+func (c *Ctl) spinCheck(ctx context.Context) {
+	c.mu.Lock()
+	if c.spinLimit == 0 || labelOf(ctx) != c.spinLabel {
+		c.mu.Unlock()
+		return
+	}
+	c.spinN++
+	if c.spinN <= c.spinLimit {
+		c.mu.Unlock()
+		return
+	}
+	c.spinning = true
+	if c.spinCh == nil {
+		c.spinCh = make(chan struct{})
+	}
+	ch := c.spinCh
+	c.mu.Unlock()
+	select {
+	case <-ch:
+	case <-ctx.Done():
+	}
 }
 
 func NewCtl() *Ctl {
@@ -116,6 +169,15 @@ func (c *Ctl) hit(ctx context.Context, kind, q string, args []driver.NamedValue)
 		}
 	}
 	return st, nil
+}
+
+// Mark appends a harness event to the statement log (keeps harness actions and SQL in one order).
+func (c *Ctl) Mark(what string) {
+	c.mu.Lock()
+	if c.logging {
+		c.log = append(c.log, &Stmt{Kind: "mark", SQL: what})
+	}
+	c.mu.Unlock()
 }
 
 func (c *Ctl) logOnly(ctx context.Context, kind, q string) {
@@ -198,6 +260,7 @@ func (v *vconn) QueryContext(ctx context.Context, q string, args []driver.NamedV
 }
 
 func (v *vconn) BeginTx(ctx context.Context, opts driver.TxOptions) (driver.Tx, error) {
+	v.c.spinCheck(ctx)
 	v.c.park(ctx, "pre-begin")
 	if _, err := v.c.hit(ctx, "begin", "BEGIN", nil); err != nil {
 		return nil, err
